@@ -6,23 +6,23 @@
  *   block = cluster = 32 bytes (cluster_bits 5): 4 entries per L2 table, 16 refcounts per refcount block
  *   (a new refcount block every 16 clusters), 4 refcount blocks per refcount table cluster (64 clusters:
  *   the image stays below that, so the known init_refcount sizing defect is not touched).
- * Filesystem of NBLK blocks; which are imaged and which of them are all-zero is symbolic.
+ * Filesystem of NBLK blocks; which are imaged is symbolic, which of them are all-zero is a per-query mask.
  *
- * The image file is a word array fed by the write() stub.  Claim, checked by an independent reader of the
- * qcow2 format (QEMU docs/interop/qcow2.txt) over the final file:
- *   - injective allocation: no byte of the file is written twice (header, L1, refcount table, each refcount
- *     block, each L2 table and each data cluster own their clusters exclusively);
- *   - every written cluster has refcount exactly 1; no cluster has a refcount other than 0 or 1;
- *   - guest block b is mapped (L1[b / 4] -> L2 table, L2[b % 4] -> cluster, both with COPIED, big endian)
- *     iff it is imaged and not all-zero, and the cluster it maps to holds the bytes of block b;
- *   - header as in harness geom.
+ * Default (light) model: the write() stub records which clusters of the image file each write touches.
+ *   Claim: injective allocation -- no cluster of the file is written twice (header, L1, refcount table, each
+ *   refcount block, each L2 table and each data cluster own their clusters exclusively).
+ * -DREADER: the image file is a word array; an independent reader of the qcow2 format (QEMU
+ *   docs/interop/qcow2.txt) checks over the final file: no word written twice; every written cluster has
+ *   refcount exactly 1 and no cluster a refcount other than 0 or 1; guest block b is mapped (L1[b / 4] -> L2
+ *   table, L2[b % 4] -> cluster, both COPIED, big endian) iff it is imaged and not all-zero, and the cluster
+ *   it maps to holds the bytes of block b; header as in harness geom.
  */
 #include "config.h"
 #include "ext2fs/ext2_fs.h"
 #include "ext2fs/ext2fs.h"
-/* STUB: ext2fs_get_mem / get_memzero / get_arrayzero / free_mem as called from e2image.c: bump allocation from a static,
- * zeroed arena with plain pointer assignment (planned hook H3: the library inlines move the pointer with memcpy, which costs
- * > 10 GB here); nothing is reused, so "zeroed" holds without memset */
+/* STUB: ext2fs_get_mem / get_memzero / get_arrayzero / free_mem as called from e2image.c: separate zeroed static objects
+ * handed out by call sequence, with plain pointer assignment (planned hook H3: the library inlines move the pointer with
+ * memcpy; with malloc or one byte arena the propositional reduction needs > 10 GB here) */
 static errcode_t stub_get_mem(unsigned long size, void *ptr);
 static errcode_t stub_get_array(unsigned long count, unsigned long size, void *ptr);
 static errcode_t stub_free_mem(void *ptr);
@@ -45,12 +45,13 @@ char *gettext(const char *m) { return (char *) m; }
 #define CB 5
 #define CSZ 32
 #ifndef NBLK
-#define NBLK 16		/* BOUND: filesystem blocks (4 L1 slots) */
+#define NBLK 10		/* BOUND: filesystem blocks */
 #endif
 #ifndef NCL
 #define NCL 40		/* BOUND: model file of 40 clusters (worst case of NBLK=16: 9 + 16 + 4 + 4 + 2 = 35) */
 #endif
 #define NW (NCL * CSZ / 8)
+#define NL1 ((NBLK + 3) / 4)
 
 static int vf_bad;
 struct vf_in {
@@ -59,26 +60,47 @@ struct vf_in {
 VF_DECLARE_INPUT(struct vf_in, IN)
 #include "vf_input.inc"
 
-static unsigned long long vf_word[NW];		/* the image file, 8-byte words in file byte order */
+static unsigned long long vf_word[NW];		/* READER: the image file, 8-byte words in file byte order */
 static unsigned char vf_wcnt[NW], vf_ccnt[NCL];
 static long long vf_pos;
 static int vf_dummy_map, vf_dummy_io;
 
-static unsigned char vf_arena[2048] __attribute__((aligned(8)));
-static unsigned long vf_brk;
+/* allocation by call sequence (the order in output_qcow2_meta_data_blocks is fixed): separate, typed, zeroed static objects */
+static struct ext2_qcow2_image vf_o_img;
+static struct ext2_qcow2_hdr vf_o_hdr;
+static __u64 vf_o_rt[CSZ / 8], vf_o_l1[NL1], vf_o_data[NL1][CSZ / 8];
+static __u16 vf_o_rb[CSZ / 2];
+static struct ext2_qcow2_l2_cache vf_o_cache;
+static struct ext2_qcow2_l2_table vf_o_tab[NL1];
+static char vf_o_hbuf[3 * CSZ], vf_o_buf[CSZ];
+static unsigned int vf_nalloc;
 static errcode_t stub_get_mem(unsigned long size, void *ptr)
 {
-	unsigned long a = (size + 7) & ~7UL;
-	if (vf_brk + a > sizeof(vf_arena)) {
+	unsigned int k = vf_nalloc++;
+	void *p = NULL;
+	unsigned long want = 0;
+	if (k == 0) { p = &vf_o_img; want = sizeof(vf_o_img); }
+	else if (k == 1) { p = &vf_o_hdr; want = sizeof(vf_o_hdr); }
+	else if (k == 2) { p = vf_o_rt; want = sizeof(vf_o_rt); }
+	else if (k == 3) { p = vf_o_rb; want = sizeof(vf_o_rb); }
+	else if (k == 4) { p = vf_o_l1; want = sizeof(vf_o_l1); }
+	else if (k == 5) { p = &vf_o_cache; want = sizeof(vf_o_cache); }
+	else if (k < 6 + 2 * NL1) {
+		if ((k - 6) % 2 == 0) { p = &vf_o_tab[(k - 6) / 2]; want = sizeof(vf_o_tab[0]); }
+		else { p = vf_o_data[(k - 6) / 2]; want = sizeof(vf_o_data[0]); }
+	}
+	else if (k == 6 + 2 * NL1) { p = vf_o_hbuf; want = sizeof(vf_o_hbuf); }
+	else if (k == 7 + 2 * NL1) { p = vf_o_buf; want = sizeof(vf_o_buf); }
+	if (!p || size != want) {
 		vf_bad = 1;
 		return EXT2_ET_NO_MEMORY;
 	}
-	*(void **) ptr = vf_arena + vf_brk;
-	vf_brk += a;
+	*(void **) ptr = p;
 	return 0;
 }
 static errcode_t stub_get_array(unsigned long count, unsigned long size, void *ptr) { return stub_get_mem(count * size, ptr); }
 static errcode_t stub_free_mem(void *ptr) { *(void **) ptr = NULL; return 0; }
+
 /* STUB: ext2fs_llseek(): position of the model image file */
 ext2_loff_t ext2fs_llseek(int fd, ext2_loff_t offset, int whence)
 {
@@ -92,7 +114,7 @@ ext2_loff_t ext2fs_llseek(int fd, ext2_loff_t offset, int whence)
 		vf_bad = 1;
 	return vf_pos;
 }
-/* STUB: write(): stores whole 8-byte words at the current position and counts how often each word is written */
+/* STUB: write(): light model: counts the clusters a write touches; READER: stores 8-byte words and counts them */
 ssize_t write(int fd, const void *buf, size_t n)
 {
 	unsigned int w, i;
@@ -112,8 +134,7 @@ ssize_t write(int fd, const void *buf, size_t n)
 			}
 	}
 #else
-	/* light model: which clusters a write touches, not what it stores */
-	(void) v;
+	(void) v; (void) buf;
 	for (w = 0; w < 3; w++)
 		for (i = 0; i < NCL; i++)
 			if (w * CSZ < n && (long long) i * CSZ == (vf_pos & ~(long long)(CSZ - 1)) + (long long) w * CSZ)
@@ -128,9 +149,16 @@ int ext2fs_test_generic_bmap(ext2fs_generic_bitmap bmap, __u64 arg)
 {
 	if (bmap != (ext2fs_generic_bitmap) &vf_dummy_map || arg >= NBLK)
 		vf_bad = 1;
+#ifdef ACTIVE
+	/* concrete answers where the configuration fixes them (a symbolic expression with known bits is not a constant for symex) */
+	if (!((ACTIVE >> (arg / 4)) & 1))
+		return 0;
+	if (arg % 4 == 0)
+		return 1;
+#endif
 	return (IN.imaged >> arg) & 1;
 }
-/* STUB: io_channel_read_blk64(): block b reads as 32 bytes 0xB0+b.. (tagged), or all-zero */
+/* STUB: io_channel_read_blk64(): block b reads as 32 bytes 0x40+b, or all-zero */
 errcode_t io_channel_read_blk64(io_channel io, unsigned long long blk, int count, void *data)
 {
 	unsigned char *b = data;
@@ -142,6 +170,7 @@ errcode_t io_channel_read_blk64(io_channel io, unsigned long long blk, int count
 	return 0;
 }
 
+#ifdef READER
 /* ---- independent reader */
 static unsigned long long ref_word_at(unsigned long long pos)	/* file word at byte offset pos (8-aligned), 0 beyond the model */
 {
@@ -166,12 +195,12 @@ static unsigned int ref_be16_in(unsigned long long v, unsigned int k)	/* k-th 16
 	const unsigned char *p = (const unsigned char *) &v;
 	return (p[2 * k] << 8) | p[2 * k + 1];
 }
+#endif
 
 int main(void)
 {
 	static struct struct_ext2_filsys fs_s;
 	static struct ext2_super_block sb;
-	unsigned long long l1_off, rt_off, l1_size, size;
 	unsigned int b, c, k;
 
 	VF_INPUT(IN);
@@ -181,25 +210,39 @@ int main(void)
 	sb.s_blocks_count = NBLK;
 	sb.s_first_data_block = 0;
 	meta_block_map = (ext2fs_block_bitmap) &vf_dummy_map;
-	/* meta_blocks_count as write_raw_image_file leaves it: the number of blocks in the map */
-	/* ASSUME: at least one imaged non-zero block (the superblock always is): with none, flush_l2_cache() aborts on assert(table) */
-	ASSUME((IN.imaged & ~IN.zero & ((1u << NBLK) - 1)) != 0);
 #ifdef ZERO
 	IN.zero = ZERO;		/* compile-time mask of all-zero blocks */
 #endif
+#ifdef ACTIVE
+	/* BOUND: -DACTIVE=mask (one query per value): L1 slot r is either untouched (no imaged block in blocks 4r..4r+3) or its first
+	 * block 4r is imaged and blocks 4r+1..4r+3 are symbolic: when a new L2 table starts is then known during symbolic
+	 * execution (table pointers stay concrete; symex 150 s -> seconds); the file offsets remain symbolic */
+	{
+		unsigned int r, m = 0;
+		for (r = 0; r < NL1; r++)
+			if ((ACTIVE >> r) & 1)
+				m |= (1u << (4 * r)) | (IN.imaged & (0xeu << (4 * r)));
+		IN.imaged = m;
+	}
+#endif
+	/* ASSUME: at least one imaged non-zero block (the superblock always is): with none, flush_l2_cache() aborts on assert(table) */
+	ASSUME((IN.imaged & ~IN.zero & ((1u << NBLK) - 1)) != 0);
+	/* meta_blocks_count as write_raw_image_file leaves it: the number of blocks in the map */
 	meta_blocks_count = 0;
 	for (b = 0; b < NBLK; b++)
 		meta_blocks_count += (IN.imaged >> b) & 1;
 
 	output_qcow2_meta_data_blocks(&fs_s, 7);
 
-	PROP(!vf_bad, "writes are 8-byte aligned, inside the model file, to the image descriptor");
+	PROP(!vf_bad, "writes are 8-byte aligned, inside the model file, to the image descriptor; allocations in the expected sequence");
 	/* BOUND: main.*: NW words / NCL clusters / NBLK blocks */
 #ifndef READER
+	(void) k;
 	for (c = 0; c < NCL; c++)
 		PROP(vf_ccnt[c] <= 1, "injective allocation: no cluster of the image file is written twice");
-	(void) l1_off; (void) rt_off; (void) l1_size; (void) size; (void) k;
 #else
+	{
+	unsigned long long l1_off, rt_off, l1_size, size;
 	for (k = 0; k < NW; k++)
 		PROP(vf_wcnt[k] <= 1, "injective allocation: no part of the image file is written twice");
 
@@ -210,7 +253,7 @@ int main(void)
 	l1_size = (ref_be64(vf_word[4]) & 0xffffffffULL);		/* bytes 36..39 */
 	l1_off = ref_be64(vf_word[5]);
 	rt_off = ref_be64(vf_word[6]);
-	PROP(l1_size == (NBLK + 3) / 4 && l1_off % CSZ == 0 && rt_off % CSZ == 0 && l1_off < rt_off, "header: L1 size, aligned table offsets");
+	PROP(l1_size == NL1 && l1_off % CSZ == 0 && rt_off % CSZ == 0 && l1_off < rt_off, "header: L1 size, aligned table offsets");
 	PROP((ref_be64(vf_word[7]) >> 32) == 1, "header: one refcount table cluster");
 
 	/* refcounts */
@@ -242,6 +285,7 @@ int main(void)
 		} else {
 			PROP(l2e == 0, "a block that is not imaged (or all-zero) is unmapped");
 		}
+	}
 	}
 #endif
 	VF_END();
